@@ -147,19 +147,23 @@ def agg_facts(gr_tree, gr_src):
     f = py2v.find_method(gr_tree, "_BaseGroupedData", "agg")
     out = {"hash": py2v.src_hash(f, gr_src)}
     # dict form
-    columns = None
+    # `columns = (<dict form> if isinstance(exprs[0], dict) else exprs)` or the same as an if/else statement
+    t = dict_value = other_value = None
     for s in f.body:
-        if isinstance(s, ast.Assign) and dotted(s.targets[0]) == "columns":
-            columns = s.value
-    if not isinstance(columns, ast.IfExp):
-        raise Untranslatable("agg: `columns = (... if isinstance(exprs[0], dict) else exprs)` not found")
-    t = columns.test
+        if isinstance(s, ast.Assign) and dotted(s.targets[0]) == "columns" and isinstance(s.value, ast.IfExp):
+            t, dict_value, other_value = s.value.test, s.value.body, s.value.orelse
+        elif isinstance(s, ast.If) and len(s.body) == 1 and len(s.orelse) == 1 \
+                and all(isinstance(x, (ast.Assign, ast.AnnAssign)) and dotted(x.targets[0] if isinstance(x, ast.Assign) else x.target) == "columns"
+                        for x in (s.body[0], s.orelse[0])):
+            t, dict_value, other_value = s.test, s.body[0].value, s.orelse[0].value
+    if t is None:
+        raise Untranslatable("agg: `columns = (... if isinstance(exprs[0], dict) else exprs)` (or the if/else statement) not found")
     ok = (isinstance(t, ast.Call) and dotted(t.func) == "isinstance" and len(t.args) == 2 and dotted(t.args[1]) == "dict"
           and isinstance(t.args[0], ast.Subscript) and dotted(t.args[0].value) == "exprs"
           and isinstance(t.args[0].slice, ast.Constant) and t.args[0].slice.value == 0)
-    if not ok or dotted(columns.orelse) != "exprs":
+    if not ok or dotted(other_value) != "exprs":
         raise Untranslatable("agg: dict test / non-dict branch changed")
-    elt, tgt, it = _single_listcomp(columns.body, "agg dict form")
+    elt, tgt, it = _single_listcomp(dict_value, "agg dict form")
     ok = (isinstance(it, ast.Call) and isinstance(it.func, ast.Attribute) and it.func.attr == "items" and not it.args
           and isinstance(it.func.value, ast.Subscript) and dotted(it.func.value.value) == "exprs"
           and isinstance(tgt, ast.Tuple) and len(tgt.elts) == 2 and all(isinstance(x, ast.Name) for x in tgt.elts))
@@ -235,9 +239,34 @@ def agg_facts(gr_tree, gr_src):
             and elt.attr in ("column_expression", "expression")):
         raise Untranslatable("agg: grouping-set tuple is not [x.<attr> for x in grouping_set]")
     out["sets_unaliased"] = elt.attr == "column_expression"
-    loops = [n for n in ast.walk(f) if isinstance(n, ast.For) and dotted(n.target) == "grouping_set"]
-    if len(loops) != 1 or dotted(loops[0].iter) != "self.group_by_cols":
+    # one tuple per element of self.group_by_cols, in order: a for loop appending them, or a list comprehension
+    loops = [n for n in ast.walk(f) if isinstance(n, ast.For) and dotted(n.target) == "grouping_set"
+             and any(x is tuples[0] for x in ast.walk(n))]
+    comps = [n for n in ast.walk(f) if isinstance(n, ast.ListComp) and n.elt is tuples[0] and len(n.generators) == 1
+             and not n.generators[0].ifs and dotted(n.generators[0].target) == "grouping_set"]
+    srcs = [dotted(n.iter) for n in loops] + [dotted(n.generators[0].iter) for n in comps]
+    if srcs != ["self.group_by_cols"]:
         raise Untranslatable("agg: grouping sets are not taken from self.group_by_cols in order")
+    # the branch: grouping sets iff self.group_by_cols is non-empty and its first element is a list/tuple/set
+    brs = [n for n in ast.walk(f) if isinstance(n, ast.If) and n.orelse and any(x is tuples[0] for x in ast.walk(n))]
+    if len(brs) != 1:
+        raise Untranslatable("agg: the plain / grouping-sets branch was not found")
+    br = brs[0]
+    sets_in_body = any(x is tuples[0] for y in br.body for x in ast.walk(y))
+    plain_suite = br.orelse if sets_in_body else br.body
+    if not any(x is gb[0] for y in plain_suite for x in ast.walk(y)):
+        raise Untranslatable("agg: .group_by(...) is not in the branch opposite to the grouping sets")
+    test = br.test
+    if isinstance(test, ast.Name):       # a named condition assigned once before the `if`
+        defs = [x for x in f.body if isinstance(x, (ast.Assign, ast.AnnAssign))
+                and dotted(x.targets[0] if isinstance(x, ast.Assign) else x.target) == test.id]
+        if len(defs) != 1:
+            raise Untranslatable("agg: branch condition variable is not assigned exactly once")
+        test = defs[0].value
+    for nonempty in (False, True):
+        for is_list in (False, True):
+            if _cond_eval(test, nonempty, is_list) != ((nonempty and is_list) == sets_in_body):
+                raise Untranslatable("agg: the plain / grouping-sets condition changed")
     src = ast.get_source_segment(gr_src, f) or ""
     if "exp.Group(grouping_sets=[exp.GroupingSets(expressions=all_grouping_sets)])" not in src.replace("\n", "") \
             or 'expression.set("group", group_by)' not in src:
@@ -253,14 +282,32 @@ def agg_facts(gr_tree, gr_src):
         ok = (len(hv) == 1 and dotted(hv[0].func) == "expression.set" and len(hv[0].args) == 2
               and (ast.get_source_segment(gr_src, hv[0].args[1]) or "").replace(" ", "").replace("\n", "").replace(",)", ")") == want)
         # it must sit in the grouping-sets branch, next to expression.set("group", group_by)
-        branch = [n for n in ast.walk(f) if isinstance(n, ast.If) and n.orelse and any(
-            isinstance(x, ast.Call) and dotted(x.func) == "exp.GroupingSets" for y in n.orelse for x in ast.walk(y))]
-        in_branch = len(branch) == 1 and any(x is hv[0] for y in branch[0].orelse for x in ast.walk(y))
+        sets_suite = br.body if sets_in_body else br.orelse
+        in_branch = any(x is hv[0] for y in sets_suite for x in ast.walk(y))
         if not (ok and in_branch):
             raise Untranslatable("agg: a HAVING clause of another shape / in another place than the grouping-sets branch")
         out["cube_having"] = True
     out["gid_guard"] = gid_guard(f)
     return out
+
+
+def _cond_eval(n, nonempty: bool, is_list: bool) -> bool:
+    """truth value of the branch condition given: self.group_by_cols is non-empty / its first element is a list-like"""
+    if isinstance(n, ast.BoolOp):
+        vals = [_cond_eval(v, nonempty, is_list) for v in n.values]
+        return all(vals) if isinstance(n.op, ast.And) else any(vals)
+    if isinstance(n, ast.UnaryOp) and isinstance(n.op, ast.Not):
+        return not _cond_eval(n.operand, nonempty, is_list)
+    if isinstance(n, ast.Call) and dotted(n.func) == "bool" and len(n.args) == 1 and not n.keywords:
+        return _cond_eval(n.args[0], nonempty, is_list)
+    if dotted(n) == "self.group_by_cols":
+        return nonempty
+    if isinstance(n, ast.Call) and dotted(n.func) == "isinstance" and len(n.args) == 2 \
+            and isinstance(n.args[0], ast.Subscript) and dotted(n.args[0].value) == "self.group_by_cols" \
+            and isinstance(n.args[0].slice, ast.Constant) and n.args[0].slice.value == 0 \
+            and isinstance(n.args[1], ast.Tuple) and sorted(dotted(e) or "?" for e in n.args[1].elts) == ["list", "set", "tuple"]:
+        return is_list
+    raise Untranslatable("agg: branch condition atom " + ast.dump(n)[:80])
 
 
 def gid_guard(f):
@@ -653,3 +700,58 @@ def generate(repo: str):
         {"name": "fn_class", "from": "functions.py", "value": classes},
     ]
     return "\n".join(L) + "\n", facts
+
+
+# ---- the part of Gen.C01Facts C06 depends on ------------------------------------------------------------------
+# (built from translate/c01_facts.py's own translators of the Operation enum, the two wrappers, the decorators, orderBy's
+# append flag and limit's merge; C01's further facts -- order-key flags etc. -- are not C06's and are left out, so that
+# work in progress there does not move this check)
+
+C01_NAMES = {"NSelect": "select", "NWhere": "where", "NOrderBy": "orderBy", "NLimit": "limit", "NDistinct": "distinct"}
+
+
+def generate_c01_core(repo: str):
+    from translate import c01_facts as c1
+    ops_tree, ops_src = py2v.load(os.path.join(repo, "sqlframe/base/operations.py"))
+    df_tree, df_src = py2v.load(os.path.join(repo, "sqlframe/base/dataframe.py"))
+    gr_tree, _ = py2v.load(os.path.join(repo, "sqlframe/base/group.py"))
+    vals = c1.enum_values(ops_tree)
+    w_df = c1.wrapper_facts(ops_tree, ops_src, "operation", "self")
+    w_gr = c1.wrapper_facts(ops_tree, ops_src, "group_operation", "self._df")
+    decos = c1.method_decorators(df_tree, "BaseDataFrame", "operation")
+    gdecos = c1.method_decorators(gr_tree, "_BaseGroupedData", "group_operation")
+    oa = c1.order_append(df_tree)
+    lm, lm_hash = c1.limit_merge(df_tree, df_src)
+    for n, m in C01_NAMES.items():
+        if decos.get(m) is None:
+            raise Untranslatable(f"method {m} has no @operation decorator")
+    L = ["(* GENERATED from /repo on every run by translate/c06_facts.py (generate_c01_core) -- do not edit *)",
+         "From SF Require Import Model.Chain.",
+         "Open Scope Z_scope.",
+         "Definition rank (k : opk) : Z := match k with " + " | ".join(f"{k} => ({vals[k]})" for k in OPK) + " end.",
+         "Definition opk_ltb a b := Z.ltb (rank a) (rank b).",
+         "Definition opk_leb a b := Z.leb (rank a) (rank b).",
+         "Definition opk_gtb a b := Z.gtb (rank a) (rank b).",
+         "Definition opk_geb a b := Z.geb (rank a) (rank b).",
+         f"Definition wrap_needed_df (last_op new_op : opk) : bool := {w_df['test']}.",
+         f"Definition wrap_needed_group (last_op new_op : opk) : bool := {w_gr['test']}.",
+         f"Definition new_kind_df (op last_op : opk) : opk := {w_df['new_kind']}.",
+         f"Definition new_kind_group (op last_op : opk) : opk := {w_gr['new_kind']}.",
+         f"Definition init_wraps_df : bool := {b(w_df['init_wraps'])}.",
+         f"Definition init_wraps_group : bool := {b(w_gr['init_wraps'])}.",
+         "Definition kind_of (n : opname) : opk := match n with " + " | ".join(f"{n} => {decos[m]}" for n, m in C01_NAMES.items()) + " end.",
+         f"Definition order_append : bool := {b(oa)}.",
+         f"Definition limit_merge (num m : Z) : Z := {lm}.",
+         "Definition gen_cfg : cfg := mkCfg wrap_needed_df kind_of init_wraps_df order_append limit_merge.",
+         f"Definition group_agg_kind : option opk := {optk(gdecos.get('agg'))}."]
+    facts = [
+        {"name": "rank", "from": "operations.py: class Operation", "value": vals},
+        {"name": "wrap_needed_df", "from": "operations.py: operation.wrapper", "hash": w_df["hash"], "text": w_df["test"]},
+        {"name": "wrap_needed_group", "from": "operations.py: group_operation.wrapper", "hash": w_gr["hash"], "text": w_gr["test"]},
+        {"name": "new_kind / init_wraps", "value": {"new_kind": w_gr["new_kind"], "init_wraps_df": w_df["init_wraps"], "init_wraps_group": w_gr["init_wraps"]}},
+        {"name": "kind_of / group_agg_kind", "from": "dataframe.py / group.py decorators",
+         "value": {**{m: decos[m] for m in C01_NAMES.values()}, "GroupedData.agg": gdecos.get("agg")}},
+        {"name": "order_append / limit_merge", "from": "dataframe.py: orderBy, limit", "value": {"order_append": oa, "limit_merge": lm}, "hash": lm_hash},
+    ]
+    return "\n".join(L) + "\n", facts
+
